@@ -24,9 +24,9 @@ LEVEL = "exploration"
 
 # ------------------------------------------------------------------------------------------- where
 
-HOWS = ("target", "template", "template_wd", "map_none", "map_str", "map_func")
+HOWS = ("target", "target_absmix", "template", "template_wd", "map_none", "map_str", "map_func")
 WF_WDS = ("inherit", "explicit_proj", "explicit_other")
-INVOKE = ("root", "nested", "unrelated_abs", "unrelated_rel", "objname")
+INVOKE = ("root", "nested", "unrelated_abs", "unrelated_rel", "objname", "symlink")
 
 
 def wf_source(how, wf_wd, objname="gwf"):
@@ -39,7 +39,11 @@ def wf_source(how, wf_wd, objname="gwf"):
     else:
         src, a, b = "src", "data/a", "b"
     lines = ["import os, json", "from gwf import Workflow, AnonymousTarget", "PROJ = os.path.dirname(os.path.realpath(__file__))", f"{objname} = Workflow({wd_arg})", "w = " + objname]
-    if how == "target":
+    if how == "target_absmix":
+        # B names A's output by its absolute (real) path while A declares it relative to the working directory
+        lines += [f"w.target('A', inputs=[{src!r}], outputs=[{a!r}]) << 'echo A'",
+                  f"w.target('B', inputs=[os.path.join(PROJ, 'data', 'a')], outputs=[{b!r}]) << 'echo B'"]
+    elif how == "target":
         lines += [f"w.target('A', inputs=[{src!r}], outputs=[{a!r}]) << 'echo A'", f"w.target('B', inputs=[{a!r}], outputs=[{b!r}]) << 'echo B'"]
     elif how in ("template", "template_wd"):
         wd = ", working_dir=w.working_dir" if how == "template_wd" else ""
@@ -68,7 +72,7 @@ class RawWorkflow(W.Workflow):
 
 def where_batch(acc, batch):
     for how, wf_wd in batch:
-        names = {"target": ("A", "B"), "template": ("A", "B"), "template_wd": ("A", "B"), "map_none": ("tpl_0", "tpl_1"), "map_str": ("m_0", "m_1"), "map_func": ("f0", "f1")}[how]
+        names = {"target": ("A", "B"), "target_absmix": ("A", "B"), "template": ("A", "B"), "template_wd": ("A", "B"), "map_none": ("tpl_0", "tpl_1"), "map_str": ("m_0", "m_1"), "map_func": ("f0", "f1")}[how]
         observations = {}
         for inv in INVOKE:
             objname = "flow" if inv == "objname" else "gwf"
@@ -87,6 +91,12 @@ def where_batch(acc, batch):
                     cwd, pre = other, ["-f", os.path.join(s.proj, "workflow.py")]
                 elif inv == "unrelated_rel":
                     cwd, pre = other, ["-f", "../proj/workflow.py"]
+                elif inv == "symlink":
+                    # the project is reached through a symlinked directory
+                    link = os.path.join(other, "link-to-proj")
+                    if not os.path.islink(link):
+                        os.symlink(s.proj, link)
+                    cwd, pre = other, ["-f", os.path.join(link, "workflow.py")]
                 else:
                     cwd, pre = s.proj, ["-f", "workflow.py:flow"]
                 r1 = s.gwf(pre + ["info"], cwd=cwd, env={"C19_PROBE": probe})
